@@ -1,6 +1,8 @@
 (* C03: proofs about model/Fresh.v (which composes the functions generated from /repo). *)
 From Coq Require Import List NArith Bool Lia.
-From SV Require Import lib.StampMap gen.GenFresh model.Fresh.
+From SV Require Import lib.StampMap.
+From SV Require Import gen.GenFresh.
+From SV Require Import model.Fresh.
 Import ListNotations.
 Open Scope N_scope.
 Open Scope bool_scope.
@@ -550,8 +552,8 @@ Lemma window_step_flags w e ru rf :
 Proof.
   intros Hw Hf. unfold flags in Hf. destruct (c_run w) as [r|] eqn:Hrun; [|discriminate].
   inversion Hf; subst ru rf. clear Hf.
-  destruct e as [f v|f row|st df dc|b|t|ps|t ok]; try discriminate Hw; cbn [step fst].
-  1-4: (exists (r_unavail r), (r_unfresh r); unfold flags; cbn; rewrite Hrun; auto).
+  destruct e as [f v|f row|st df dc|b|dr|t|ps|t ok]; try discriminate Hw; cbn [step fst].
+  1-5: (exists (r_unavail r), (r_unfresh r); unfold flags; cbn; rewrite Hrun; auto).
   - (* ETry while the command runs: not dispatchable *)
     unfold do_try, dispatchable, is_running. rewrite Hrun. rewrite !andb_false_r. cbn [negb fst].
     exists (r_unavail r), (r_unfresh r). unfold flags. rewrite Hrun. auto.
@@ -730,4 +732,213 @@ Proof.
     apply (snap_unchanged_all w (snapshot w) Hs). apply Hin_snap. exact Hin. }
   cbn. split; [reflexivity|]. split; [reflexivity|]. split; [reflexivity|].
   eexists. split; [reflexivity|]. cbn. repeat split; try reflexivity. exact Hin_snap.
+Qed.
+
+(* ====================================================================================== *)
+(* F. A step that ends SUCCEEDED: what is known about its inputs                           *)
+(* ====================================================================================== *)
+
+Definition prefix_of {A} (l1 l : list A) : Prop := exists l2, l = l1 ++ l2.
+
+(* The recorded hash of f does not change inside the window. *)
+Definition db_stable (w1 : world) (mid : list ev) (f : N) : Prop :=
+  f_hash (files (run mid w1) f) = f_hash (files w1 f).
+
+(* End-point hashing cannot see a content that is changed and restored exactly (content, size and
+   mode) inside one window: if the file is the same at both ends, it was the same throughout. *)
+Definition no_aba (w1 : world) (mid : list ev) (f : N) : Prop :=
+  disk (run mid w1) f = disk w1 f -> forall m1, prefix_of m1 mid -> disk (run m1 w1) f = disk w1 f.
+
+Lemma filter_nil_forall {A} (p : A -> bool) l : filter p l = [] -> forall x, In x l -> p x = false.
+Proof.
+  induction l as [|a l IH]; cbn; intros H x Hin; [contradiction|].
+  destruct (p a) eqn:Hp; [discriminate|]. destruct Hin as [->|Hin]; [exact Hp|apply IH; assumption].
+Qed.
+
+Lemma do_end_succeeded w r t ok :
+  c_run w = Some r -> c_state (fst (do_end w t ok)) = SS_SUCCEEDED ->
+  changed_inputs w = [] /\ r_unavail r = false /\ r_unfresh r = false /\ r_success r = true /\ ok = true /\
+  files (fst (do_end w t ok)) = files w /\ disk (fst (do_end w t ok)) = disk w /\
+  bk (fst (do_end w t ok)) = bstep (bk w) (BStop (c_id w) t true).
+Proof.
+  intros Hrun Hs.
+  destruct (changed_inputs w) as [|x l] eqn:Hch.
+  2:{ assert (Hne : changed_inputs w <> []) by (rewrite Hch; discriminate).
+      destruct (changed_input_fails_and_drains w r t ok Hrun Hne) as [Hf _]. cbv zeta in Hf.
+      rewrite Hf in Hs. discriminate. }
+  destruct (r_unavail r || r_unfresh r) eqn:Hfl.
+  { destruct (do_end_deferring w r t ok Hrun Hfl) as [Hns _]. cbv zeta in Hns. contradiction. }
+  apply orb_false_iff in Hfl as [Hu Hf].
+  revert Hs. unfold do_end. rewrite Hrun. cbv zeta. rewrite Hch, Hu, Hf. cbn [nonempty negb].
+  rewrite classify_plain. cbv iota beta.
+  destruct (r_success r), ok; cbn [andb]; try (rewrite mark_completed_fail; cbn; discriminate).
+  rewrite mark_completed_ok. cbn. intros _. repeat split; reflexivity.
+Qed.
+
+Lemma do_try_started w t :
+  snd (do_try w t) = RTry true ->
+  disk (fst (do_try w t)) = disk w /\ files (fst (do_try w t)) = files w /\ c_init (fst (do_try w t)) = c_init w.
+Proof.
+  unfold do_try. destruct (dispatchable w); cbn [negb]; [|discriminate].
+  destruct (derive_error w); [discriminate|]. cbv zeta.
+  match goal with |- context [snap_changed ?x (snapshot w)] =>
+    rewrite (snap_changed_disk x w (snapshot w) eq_refl) end.
+  destruct (snap_changed w (snapshot w)).
+  - rewrite mark_completed_fail. cbn. discriminate.
+  - cbn. intros _. repeat split; reflexivity.
+Qed.
+
+Lemma prefix_refl {A} (l : list A) : prefix_of l l.
+Proof. exists []. rewrite app_nil_r. reflexivity. Qed.
+
+(* succeeded_inputs_final_partial.  Let the command of c start (dispatch + pre-run check) in world
+   w0 and end SUCCEEDED after the window `mid` (arbitrary events of any actor).  Then
+   (A) every input that is attached and BUILT or CONFIRMED when the command ends (declared or
+       amended) is on disk with exactly the hash recorded for it, and completion leaves the rows
+       untouched;
+   (B) every declared input was attached, BUILT or CONFIRMED and on disk with its recorded hash
+       when the command started;
+   (C) no accepted amend request in the window reported an unavailable or unfresh input
+       (all answered carry_on = True);
+   (D) for a declared input whose recorded hash is the same at both ends of the window (db_stable)
+       and under no_aba, the content on disk equals the recorded hash at EVERY moment of the window.
+   Without db_stable (D) is false, see inputs_final_full_refuted_by_producer_rerun. *)
+Theorem succeeded_inputs_final_partial w0 t mid t' ok :
+  snd (do_try w0 t) = RTry true ->
+  forallb in_window mid = true ->
+  let w1 := fst (do_try w0 t) in
+  let w2 := run mid w1 in
+  let w3 := fst (step w2 (EEnd t' ok)) in
+  c_state w3 = SS_SUCCEEDED ->
+  (forall f, In f (considered w2) -> disk w2 f = f_hash (files w2 f) /\ files w3 f = files w2 f) /\
+  (forall f, In f (c_init w0) ->
+     f_detached (files w0 f) = false /\
+     (f_state (files w0 f) = FS_BUILT \/ f_state (files w0 f) = FS_CONFIRMED) /\
+     disk w1 f = f_hash (files w0 f)) /\
+  (forall pre ps post unav unfr carry,
+     mid = pre ++ EAmend ps :: post ->
+     snd (step (run pre w1) (EAmend ps)) = RAmend false unav unfr carry ->
+     unav = [] /\ unfr = [] /\ carry = true) /\
+  (forall f, In f (c_init w0) -> In f (considered w2) -> db_stable w1 mid f -> no_aba w1 mid f ->
+     forall m1, prefix_of m1 mid -> disk (run m1 w1) f = f_hash (files w3 f)).
+Proof.
+  intros Htry Hwin. cbv zeta. intros Hs.
+  destruct (do_try w0 t) as [w1 res] eqn:Hdt. cbn [fst snd] in *. subst res.
+  destruct (not_started_before_inputs_available w0 t w1 Hdt)
+    as [_ [_ [_ [Hinit [_ [_ [_ [r [Hrun [Hru [Hrf _]]]]]]]]]]].
+  pose proof (do_try_started w0 t) as Hst. rewrite Hdt in Hst. cbn [fst snd] in Hst.
+  destruct (Hst eq_refl) as [Hdisk1 [Hfiles1 Hinit1]].
+  assert (Hf1 : flags w1 = Some (r_unavail r, r_unfresh r)) by (unfold flags; rewrite Hrun; reflexivity).
+  destruct (window_run_flags mid w1 _ _ Hwin Hf1) as [ru2 [rf2 [Hf2 _]]].
+  unfold flags in Hf2. destruct (c_run (run mid w1)) as [r2|] eqn:Hrun2; [|discriminate].
+  cbn [step] in Hs.
+  destruct (do_end_succeeded _ r2 t' ok Hrun2 Hs) as [Hch [_ [_ [_ [_ [Hfiles3 [Hdisk3 _]]]]]]].
+  assert (HA : forall f, In f (considered (run mid w1)) ->
+               disk (run mid w1) f = f_hash (files (run mid w1) f)).
+  { intros f Hin. pose proof (filter_nil_forall _ _ Hch f Hin) as Hx. cbn in Hx.
+    apply negb_false_iff in Hx. apply N.eqb_eq in Hx. exact Hx. }
+  split; [intros f Hin; split; [apply HA; exact Hin|cbn [step]; rewrite Hfiles3; reflexivity]|].
+  split.
+  { intros f Hin. destruct (Hinit f Hin) as [Hd [Hstate Hdk]]. split; [exact Hd|]. split; [exact Hstate|].
+    rewrite Hdisk1. exact Hdk. }
+  split.
+  { intros pre ps post unav unfr carry Hmid Hres.
+    assert (Hpp : forallb in_window pre = true /\ forallb in_window post = true).
+    { rewrite Hmid in Hwin. rewrite forallb_app in Hwin. apply andb_true_iff in Hwin as [H1 H2].
+      cbn [forallb] in H2. apply andb_true_iff in H2 as [_ H2]. split; assumption. }
+    destruct Hpp as [Hpre Hpost].
+    assert (Hnil : unav = [] /\ unfr = []).
+    { destruct unav as [|u unav'].
+      - destruct unfr as [|v unfr']; [split; reflexivity|]. exfalso.
+        assert (Hne : (@nil N) <> [] \/ v :: unfr' <> []) by (right; discriminate).
+        pose proof (amended_input_rule w1 r pre ps post [] (v :: unfr') carry t' ok Hrun Hpre Hpost Hres Hne) as Hrule.
+        cbv zeta in Hrule. destruct Hrule as [_ [Hns _]]. rewrite <- Hmid in Hns. apply Hns. exact Hs.
+      - exfalso.
+        assert (Hne : u :: unav' <> [] \/ unfr <> []) by (left; discriminate).
+        pose proof (amended_input_rule w1 r pre ps post (u :: unav') unfr carry t' ok Hrun Hpre Hpost Hres Hne) as Hrule.
+        cbv zeta in Hrule. destruct Hrule as [_ [Hns _]]. rewrite <- Hmid in Hns. apply Hns. exact Hs. }
+    destruct Hnil as [-> ->]. split; [reflexivity|]. split; [reflexivity|].
+    destruct (window_run_flags pre w1 _ _ Hpre Hf1) as [ru1 [rf1 [Hfl1 _]]].
+    unfold flags in Hfl1. destruct (c_run (run pre w1)) as [rp|] eqn:Hrp; [|discriminate].
+    cbn [step] in Hres. destruct (do_amend (run pre w1) ps) as [wa res] eqn:Ha. cbn [snd] in Hres. subst res.
+    destruct (do_amend_flags _ _ _ _ _ _ _ Hrp Ha) as [_ [_ [_ [_ Hc]]]]. exact Hc. }
+  intros f Hin Hcons Hdb Hna m1 Hpre.
+  cbn [step]. rewrite Hfiles3.
+  destruct (Hinit f Hin) as [_ [_ Hdk]].
+  assert (Hends : disk (run mid w1) f = disk w1 f).
+  { rewrite (HA f Hcons). unfold db_stable in Hdb. rewrite Hdb. rewrite Hfiles1, Hdisk1. symmetry. exact Hdk. }
+  rewrite (Hna Hends m1 Hpre). rewrite <- Hends. apply HA. exact Hcons.
+Qed.
+
+(* The full statement of the last clause: a step that ends SUCCEEDED had, at every moment of its
+   command, every considered input on disk with the hash recorded at the end. *)
+Definition inputs_final_full : Prop :=
+  forall w0 t mid t' ok,
+    snd (do_try w0 t) = RTry true -> forallb in_window mid = true ->
+    let w1 := fst (do_try w0 t) in
+    let w2 := run mid w1 in
+    let w3 := fst (step w2 (EEnd t' ok)) in
+    c_state w3 = SS_SUCCEEDED ->
+    forall f, In f (considered w2) ->
+      forall m1, prefix_of m1 mid -> disk (run m1 w1) f = f_hash (files w3 f).
+
+Definition wit_world (st h : N) (prod : option N) : world :=
+  set_disk (set_files (world0 5 [1] 2 false) (upd (fun _ => frow0) 1 (mkF true st h false true prod false)))
+           (upd (fun _ => 0) 1 h).
+
+(* Refutation 1: A-B-A.  The static input 1 (hash 3) is overwritten (9) and restored (3) during
+   the command.  The recorded hash never changes (db_stable holds); only no_aba fails.  Inherent to
+   end-point hashing: stated as an assumption, not a defect. *)
+Lemma inputs_final_full_refuted_by_aba :
+  exists w0 t mid t' ok f m1,
+    snd (do_try w0 t) = RTry true /\ forallb in_window mid = true /\
+    c_state (fst (step (run mid (fst (do_try w0 t))) (EEnd t' ok))) = SS_SUCCEEDED /\
+    In f (considered (run mid (fst (do_try w0 t)))) /\ prefix_of m1 mid /\
+    db_stable (fst (do_try w0 t)) mid f /\
+    disk (run m1 (fst (do_try w0 t))) f <> f_hash (files (fst (step (run mid (fst (do_try w0 t))) (EEnd t' ok))) f).
+Proof.
+  exists (wit_world FS_CONFIRMED 3 None), 1, [EWrite 1 9; EWrite 1 3], 2, true, 1, [EWrite 1 9].
+  split; [vm_compute; reflexivity|]. split; [reflexivity|]. split; [vm_compute; reflexivity|].
+  split; [vm_compute; left; reflexivity|]. split; [exists [EWrite 1 3]; reflexivity|].
+  split; [vm_compute; reflexivity|]. vm_compute. discriminate.
+Qed.
+
+(* Refutation 2: the producer 8 of the declared input 1 is executed again while the command of c
+   runs (its outputs go OUTDATED, it rewrites the file: 4 -> 7, completes, the row is BUILT with the
+   new hash).  Nothing is restored: the file plainly differs between the start and the end of the
+   window, yet c ends SUCCEEDED, because the post-run check compares the disk with the hash that
+   is in the database at the end.  mark_step_pending is a no-op on a RUNNING step, so nothing
+   reruns c later.  This is a defect of the code (finding C03-rerun), replayed on the
+   implementation by harness/p_c03.py (WITNESS_RERUN) and harness/c03_sys.py (real serve()). *)
+Lemma inputs_final_full_refuted_by_producer_rerun :
+  exists w0 t mid t' ok f,
+    snd (do_try w0 t) = RTry true /\ forallb in_window mid = true /\
+    c_state (fst (step (run mid (fst (do_try w0 t))) (EEnd t' ok))) = SS_SUCCEEDED /\
+    In f (c_init w0) /\ In f (considered (run mid (fst (do_try w0 t)))) /\
+    disk (run mid (fst (do_try w0 t))) f <> disk (fst (do_try w0 t)) f /\
+    disk (fst (do_try w0 t)) f <> f_hash (files (fst (step (run mid (fst (do_try w0 t))) (EEnd t' ok))) f).
+Proof.
+  exists (wit_world FS_BUILT 4 (Some 8)), 1,
+    [EBk (BStart 8 2); ERow 1 (mkF true FS_OUTDATED 4 false true (Some 8) false); EWrite 1 7;
+     ERow 1 (mkF true FS_BUILT 7 false true (Some 8) false); EBk (BStop 8 3 true)], 4, true, 1.
+  split; [vm_compute; reflexivity|]. split; [reflexivity|]. split; [vm_compute; reflexivity|].
+  split; [left; reflexivity|]. split; [vm_compute; left; reflexivity|].
+  split; vm_compute; discriminate.
+Qed.
+
+Theorem inputs_final_full_refuted : ~ inputs_final_full.
+Proof.
+  intros H.
+  destruct inputs_final_full_refuted_by_producer_rerun as [w0 [t [mid [t' [ok [f [H1 [H2 [H3 [_ [H5 [_ H7]]]]]]]]]]]].
+  apply H7. apply (H w0 t mid t' ok H1 H2 H3 f H5 []). exists mid. reflexivity.
+Qed.
+
+(* What a "not unfresh" verdict means: with clock readings that never decrease, if
+   ran_concurrently(p, c) is False then, in the order of events, c's current start does not
+   precede p's last successful stop. *)
+Corollary fresh_verdict_sound evs p c :
+  mono 0 evs = true -> ran_conc (brun evs) p c = false -> ran_order evs p c = false.
+Proof.
+  intros Hm Hr. destruct (ran_order evs p c) eqn:Ho; [|reflexivity].
+  rewrite (pruning_no_missed_overlap evs p c Hm Ho) in Hr. discriminate.
 Qed.
